@@ -10,11 +10,47 @@ pub struct Prop {
     pub run: Box<dyn Fn(&str) -> CaseResult + Sync>,
 }
 
+pub mod c01;
+pub mod c02;
+pub mod c03;
+pub mod c04;
+pub mod c05;
+pub mod c06;
+pub mod c07;
+pub mod c08;
+pub mod c09;
+pub mod c10;
+pub mod c11;
+pub mod c12;
+pub mod c13;
+pub mod c14;
+pub mod c15;
+pub mod c16;
+pub mod c17;
 pub mod c18;
+pub mod c19;
 
 pub fn lookup(name: &str) -> Option<Prop> {
     match name {
+        "c01" => Some(c01::prop()),
+        "c02" => Some(c02::prop()),
+        "c03" => Some(c03::prop()),
+        "c04" => Some(c04::prop()),
+        "c05" => Some(c05::prop()),
+        "c06" => Some(c06::prop()),
+        "c07" => Some(c07::prop()),
+        "c08" => Some(c08::prop()),
+        "c09" => Some(c09::prop()),
+        "c10" => Some(c10::prop()),
+        "c11" => Some(c11::prop()),
+        "c12" => Some(c12::prop()),
+        "c13" => Some(c13::prop()),
+        "c14" => Some(c14::prop()),
+        "c15" => Some(c15::prop()),
+        "c16" => Some(c16::prop()),
+        "c17" => Some(c17::prop()),
         "c18" => Some(c18::prop()),
+        "c19" => Some(c19::prop()),
         _ => None,
     }
 }
